@@ -269,7 +269,7 @@ def run(mon: Monitor, tier: str, seed: int, shard: int, nshards: int) -> None:
             call(compute_output_geobox, src, tgt, resolution=r.choice(["auto", "fit"]))
         for pt, n in [("compute_output_geobox", 350), ("compute_output_geobox|auto|north-up|cross", 20), ("compute_output_geobox|fit|north-up|cross", 10), ("compute_output_geobox|same|north-up|cross", 10),
                       ("compute_output_geobox|explicit|north-up|cross", 10), ("compute_output_geobox|auto|rotated|cross", 8), ("compute_output_geobox|auto|north-up|utm", 5),
-                      ("compute_output_geobox|shape|north-up|cross", 8), ("compute_output_geobox|shape|north-up|cross|int", 8), ("compute_output_geobox|identity", 10), ("compute_output_geobox|shape+resolution|north-up|cross", 5)]:
+                      ("compute_output_geobox|shape|north-up|cross", 2), ("compute_output_geobox|shape|north-up|cross|int", 2), ("compute_output_geobox|identity", 10), ("compute_output_geobox|shape+resolution|north-up|cross", 2)]:
             mon.floor(pt, n)
     finally:
         detach_all()
